@@ -1,6 +1,7 @@
 package vh
 
 import (
+	"encoding/json"
 	"fmt"
 )
 
@@ -44,7 +45,7 @@ func (h *Hist[A]) Explore() bool {
 	frontier := []histNode[A]{{hist: nil}}
 	render := h.Render
 	if render == nil {
-		render = func(hist []A) interface{} { return fmt.Sprint(hist) }
+		render = func(hist []A) interface{} { return hist }
 	}
 	complete := true
 	itemNo := 0
@@ -84,6 +85,18 @@ func (h *Hist[A]) Explore() bool {
 					seen[r.Digest] = true
 				}
 				h.Rep.States++
+				// determinism self-test: the first states of every run are replayed a second
+				// time; the same history must reach the same digest and verdict
+				if h.Rep.States <= 150 && r.Digest != "" {
+					r2 := h.Run(hist)
+					if r2.Digest != r.Digest || r2.Viol != r.Viol {
+						b, _ := json.Marshal(render(hist))
+						h.Rep.EngineError = "replaying a history twice gave different states (harness nondeterminism): " + string(b)
+						h.Rep.Exhaustive = false
+						return false
+					}
+					h.Rep.Count("determinism_replays", 1)
+				}
 				if h.NonTrivial == nil || h.NonTrivial(hist, r) {
 					h.Rep.Nontrivial++
 				}
